@@ -55,8 +55,8 @@ Proof.
   exists b. repeat split; try assumption.
   - exact (proj1 (Forall_lookup box_ok _ _ _ Hb Hl)).
   - exact (proj2 (Forall_lookup box_ok _ _ _ Hb Hl)).
-  - destruct (Hm H) as (P & Hw & Hf). destruct (Forall_lookup (flags_in P) _ _ _ Hf Hl) as [-> _]. exact Hw.
-  - destruct (Hm H) as (P & Hw & Hf). destruct (Forall_lookup (flags_in P) _ _ _ Hf Hl) as [-> HF]. exact HF.
+  - exact (proj1 (Forall_lookup flags_in _ _ _ (Hm H) Hl)).
+  - exact (proj2 (Forall_lookup flags_in _ _ _ (Hm H) Hl)).
 Qed.
 
 (* replacing the selected mailbox by one with the same UIDs, counter and table keeps Inv *)
@@ -71,9 +71,9 @@ Proof.
   destruct Hs as (b0 & Hl0 & Hv & Hp0). rewrite Hl in Hl0. inversion Hl0; subst b0.
   split; [|split]; cbn [st_boxes st_bk st_sel].
   - apply Forall_set_box; assumption.
-  - intros Hk. destruct (Hm Hk) as (P & Hw & Hf). exists P. split; [exact Hw|].
-    apply Forall_set_box; [exact Hf|]. destruct (Forall_lookup (flags_in P) _ _ _ Hf Hl) as [HP _].
-    split; [congruence|]. rewrite <- HP. apply Hfl, Hk.
+  - intros Hk. apply Forall_set_box; [exact (Hm Hk)|].
+    destruct (Forall_lookup flags_in _ _ _ (Hm Hk) Hl) as [Hw _].
+    split; [rewrite Hp; exact Hw|]. rewrite Hp. apply Hfl, Hk.
   - exists b'. cbn [s_box s_view s_perm]. rewrite lookup_set_box_same, Hl.
     repeat split. congruence.
 Qed.
@@ -123,6 +123,10 @@ Proof.
   fold upd in Hloop. fold g in Hloop. fold L in Hloop. rewrite Hloop. clear Hloop.
   assert (Hg : forall qm, In qm L -> m_uid (g qm) = m_uid (snd qm)).
   { intros qm _. unfold g. destruct (addr qm); reflexivity. }
+  assert (Hsame : forall u, In u (uids_of (s_view s)) -> In u (uids_of (b_msgs (set_msgs b (map g L))))).
+  { intros u Hu. cbn [b_msgs set_msgs]. unfold L, enumerate in *. rewrite uids_map_same by exact Hg. rewrite <- Hv. exact Hu. }
+  rewrite (post_recent_same _ _ s _ Hsame).
+  rewrite (finish_h_same _ _ s _ _ _ _ Hsame).
   set (res := map (fun qm => (fst qm, upd (snd qm), false)) (filter addr L)).
   assert (Hany : any_expunged res = false).
   { unfold any_expunged, res. induction (filter addr L) as [|x r IH]; cbn; [reflexivity|exact IH]. }
@@ -240,15 +244,26 @@ Proof.
         then Some (with_recent (m_flags (g qm)) (memN (m_uid (g qm)) (s_recent s))) else None)
        (if has_attr AInternalDate attrs then Some (m_date (g qm)) else None)
        (if existsb fa_content attrs then Some (m_cid (g qm)) else None)).
-  assert (Hitems : map (fun x : N * msg * bool => let '(q, m, _) := x in
+  assert (Hsame : forall u, In u (uids_of (s_view s)) -> In u (uids_of (b_msgs (set_msgs b (map g L))))).
+  { intros u Hu. cbn [b_msgs set_msgs]. unfold L, enumerate in *. rewrite uids_map_same by exact Hg.
+    rewrite <- Hv. exact Hu. }
+  rewrite (post_recent_same _ _ s _ Hsame).
+  rewrite (finish_h_same _ _ s _ _ _ _ Hsame).
+  assert (Hitems : map (fun x : N * msg * bool => let '(q, m, ex) := x in
                      UFetch (mkItem q
                        (if uid || has_attr AUid attrs then Some (m_uid m) else None)
                        (if has_attr AFlags attrs
                         then Some (with_recent (m_flags m) (memN (m_uid m) (s_recent s))) else None)
                        (if has_attr AInternalDate attrs then Some (m_date m) else None)
-                       (if existsb fa_content attrs then Some (m_cid m) else None))) res
+                       (if existsb fa_content attrs
+                        then Some (match st_bk st, ex with
+                                   | Maildir, true => NO_CONTENT
+                                   | _, _ => m_cid m
+                                   end)
+                        else None))) res
                    = map (fun qm => UFetch (A qm)) (filter addr L)).
-  { unfold res. rewrite map_map. reflexivity. }
+  { unfold res. rewrite map_map. apply map_ext. intros qm. unfold A.
+    destruct (st_bk st); reflexivity. }
   rewrite Hitems. clear Hitems.
   match goal with |- context [finish _ s _ ?S uid ?I] =>
     pose proof (finish_flags_only b s g S uid I Hv Hnd Hg) as Hfin end.
